@@ -31,7 +31,7 @@ type Step struct {
 	From      string `json:"from,omitempty"` // bank send
 	To        string `json:"to,omitempty"`
 	Amount    int64  `json:"amount,omitempty"`
-	Rewrite   bool   `json:"rewrite,omitempty"` // restart: the genesis is re-written in an equivalent form before it is imported
+	Rewrite   bool   `json:"rewrite,omitempty"`   // restart: the genesis is re-written in an equivalent form before it is imported
 	NewChain  bool   `json:"new_chain,omitempty"` // restart: the new chain starts again at height 1 (only outside commit mode)
 }
 
